@@ -389,6 +389,11 @@ def roundtrip_failures(n, seed, limit=3):
         'bin edges, five rows': sc.DataArray(sc.array(dims=['x'], values=[1.0] * 5, variances=[1.0] * 5), coords={'x': sc.array(dims=['x'], values=[0.0, 1.0, 2.0, 3.0, 4.0, 5.0])}),
         'mask': sc.DataArray(base.data, coords=dict(base.coords), masks={'m': sc.array(dims=['x'], values=[True, False])}),
         '2-d': sc.DataArray(sc.array(dims=['x', 'y'], values=[[1.0]], variances=[[1.0]]), coords={'x': sc.array(dims=['x'], values=[0.0])}),
+        '2-d with a coordinate of the same two dimensions': sc.DataArray(sc.array(dims=['x', 'y'], values=[[1.0, 2.0], [3.0, 4.0]], variances=[[1.0, 1.0], [1.0, 1.0]]),
+                                                                         coords={'x': sc.array(dims=['x', 'y'], values=[[0.0, 1.0], [2.0, 3.0]])}),
+        '2-d, 1 x 3, with a coordinate of the same two dimensions': sc.DataArray(sc.array(dims=['x', 'y'], values=[[1.0, 2.0, 3.0]], variances=[[1.0, 1.0, 1.0]]),
+                                                                                 coords={'x': sc.array(dims=['x', 'y'], values=[[0.0, 1.0, 2.0]])}),
+        '0-d with a scalar coordinate': sc.DataArray(sc.scalar(1.0, variance=1.0), coords={'x': sc.scalar(0.5)}),
         'no coordinate': sc.DataArray(base.data),
         'ambiguous coordinate': sc.DataArray(base.data, coords={'a': base.coords['x'], 'b': base.coords['x']}),
     }
